@@ -9,6 +9,7 @@ import (
 	"strings"
 
 	"github.com/ipld/go-ipld-prime/codec/dagcbor"
+	"github.com/ipld/go-ipld-prime/datamodel"
 	"github.com/ipld/go-ipld-prime/node/basicnode"
 
 	"verif/internal/core"
@@ -244,6 +245,7 @@ func runC02(c *core.Ctx) error {
 	if err := c02Batch(c, c02Boundary()); err != nil {
 		return err
 	}
+	c02FailedEncodes(c, c.Rand.Fork(), c.Pick(150, 10000))
 	n := c.Pick(3000, 200000)
 	cfg := core.DefaultGen
 	for done := 0; done < n; {
@@ -261,6 +263,84 @@ func runC02(c *core.Ctx) error {
 		done += k
 	}
 	return nil
+}
+
+// limitWriter accepts `limit` bytes and then fails (the failing write takes what still fits).
+type limitWriter struct {
+	buf   bytes.Buffer
+	limit int
+}
+
+func (w *limitWriter) Write(p []byte) (int, error) {
+	room := w.limit - w.buf.Len()
+	if room >= len(p) {
+		return w.buf.Write(p)
+	}
+	if room > 0 {
+		w.buf.Write(p[:room])
+	}
+	return max(room, 0), fmt.Errorf("writer full")
+}
+
+// c02FailedEncodes: the encoding is a function of the value alone - also right after an encode that failed.  A value is
+// encoded into a writer that fails at every offset in turn (all offsets for short encodings, sampled otherwise); the
+// bytes that got through are a prefix of the canonical encoding, an error is reported, and the NEXT encode (of the same
+// and of another value, on the same goroutine) produces exactly the canonical bytes, as does EncodedLength.
+func c02FailedEncodes(c *core.Ctx, r *core.Rand, n int) {
+	cfg := core.DefaultGen
+	cfg.MaxDepth, cfg.MaxWidth = 3, 4
+	for i := 0; i < n; i++ {
+		v := core.GenVal(r, cfg, 0)
+		w := core.GenVal(r, cfg, 0)
+		nv, err1 := core.BuildBasic(v, nil)
+		nw, err2 := core.BuildBasic(w, nil)
+		if err1 != nil || err2 != nil {
+			continue
+		}
+		var canonV, canonW bytes.Buffer
+		if dagcbor.Encode(nv, &canonV) != nil || dagcbor.Encode(nw, &canonW) != nil {
+			continue
+		}
+		total := canonV.Len()
+		var offsets []int
+		if total <= 64 {
+			for k := 0; k < total; k++ {
+				offsets = append(offsets, k)
+			}
+		} else {
+			for k := 0; k < 24; k++ {
+				offsets = append(offsets, r.Intn(total))
+			}
+		}
+		hasLink := strings.Contains(v.Term(), " l") || v.K == 'l'
+		for _, off := range offsets {
+			caseID := fmt.Sprintf("c02.failed-encode fail-at=%d %s THEN %s", off, v.Term(), w.Term())
+			lw := &limitWriter{limit: off}
+			err := dagcbor.Encode(nv, lw)
+			c.Count(caseID, hasLink)
+			if err == nil {
+				c.Fail("C02/failed-write-not-reported", core.Replay{Kind: "oracle", Case: caseID, Impl: "nil", Expected: "an error: the writer failed after " + fmt.Sprint(off) + " bytes"})
+			}
+			if !bytes.HasPrefix(canonV.Bytes(), lw.buf.Bytes()) {
+				c.Fail("C02/partial-output-not-a-prefix", core.Replay{Kind: "oracle", Case: caseID, Impl: hex.EncodeToString(lw.buf.Bytes()), Expected: hex.EncodeToString(canonV.Bytes())})
+			}
+			for which, pair := range [][2]interface{}{{nw, canonW.Bytes()}, {nv, canonV.Bytes()}} {
+				var again bytes.Buffer
+				nd := pair[0].(datamodel.Node)
+				if err := dagcbor.Encode(nd, &again); err != nil || !bytes.Equal(again.Bytes(), pair[1].([]byte)) {
+					c.Fail("C02/encode-after-failed-encode-differs", core.Replay{Kind: "oracle", Case: caseID, Impl: hex.EncodeToString(again.Bytes()) + fmt.Sprint(" ", err), Expected: hex.EncodeToString(pair[1].([]byte)),
+						Detail: []string{"the other value", "the same value"}[which] + " encoded right after the failed encode"})
+				}
+				if l, err := dagcbor.EncodedLength(nd); err != nil || l != int64(len(pair[1].([]byte))) {
+					c.Fail("C02/encodedlength-mismatch", core.Replay{Kind: "oracle", Case: caseID, Impl: fmt.Sprint(l, err), Expected: fmt.Sprint(len(pair[1].([]byte)))})
+				}
+			}
+		}
+		c.Dist("failed-encode-histories")
+		if hasLink {
+			c.Dist("failed-encode-histories:with-link")
+		}
+	}
 }
 
 func searchC02(c *core.Ctx) error { return nil }
